@@ -175,6 +175,9 @@ func genValidClaims(r *Rng, prof string) ClaimsDesc {
 	if prof == "xp1" || prof == "xp2" {
 		if r.Chance(1, 2) {
 			x := int64(r.Intn(1 << 30))
+			if r.Chance(1, 4) {
+				x = 0 // present, and the zero value of its type
+			}
 			d.Extra = &x
 		}
 	}
@@ -586,7 +589,7 @@ func (d *ClaimsDesc) buildRaw() (psatoken.IClaims, error) {
 		ws := x.wide()
 		for _, i := range d.Wide {
 			if i >= 0 && i < len(ws) {
-				v := int64(1000 + i)
+				v := wideValue(i)
 				*ws[i] = &v
 			}
 		}
@@ -648,7 +651,7 @@ func (d *ClaimsDesc) buildViaSetters() (out psatoken.IClaims, oerr error) {
 		ws := xw.wide()
 		for _, i := range d.Wide {
 			if i >= 0 && i < len(ws) {
-				v := int64(1000 + i)
+				v := wideValue(i)
 				*ws[i] = &v
 			}
 		}
@@ -694,4 +697,13 @@ func (d *ClaimsDesc) claimsShape() string {
 		}
 	}
 	return s
+}
+
+// wideValue is the value of the i-th extra claim of the wide profile: every
+// fourth one is present but zero.
+func wideValue(i int) int64 {
+	if i%4 == 0 {
+		return 0
+	}
+	return int64(1000 + i)
 }
